@@ -203,11 +203,13 @@ theorem nvar_entry_step (pol : UInt8) (fuel : Nat)
               · refine post_bind' (nvIdent_post s _ _ _ _ _ _ hvl (by omega) rfl rfl hinv.2.1) ?_
                 · rintro ⟨e2, guids⟩ m2 ⟨hd1, hd2, hsz, hfit, hgl⟩
                   simp only [] at hd1 hd2 hsz hfit hgl ⊢
-                  refine post_bind (post_sliceFromG (by omega) ?_)
                   split
-                  · refine post_bind' (ihStore _ _ (by simp [hvl]; omega)) ?_
-                    intro ns m3 _
-                    exact post_pure ⟨by simp [hsz]; omega, by simp [hsz]; omega, hfit, hgl⟩
+                  · refine post_bind (post_sliceFromG (by omega) ?_)
+                    split
+                    · refine post_bind' (ihStore _ _ (by simp [hvl]; omega)) ?_
+                      intro ns m3 _
+                      exact post_pure ⟨by simp [hsz]; omega, by simp [hsz]; omega, hfit, hgl⟩
+                    · exact post_pure ⟨by simp [hsz]; omega, by simp [hsz]; omega, hfit, hgl⟩
                   · exact post_pure ⟨by simp [hsz]; omega, by simp [hsz]; omega, hfit, hgl⟩
 
 theorem nvar_loop_step (pol : UInt8) (fuel : Nat)
@@ -231,10 +233,12 @@ theorem nvar_loop_step (pol : UInt8) (fuel : Nat)
       simp only [EntryQ] at hr
       obtain ⟨h10, hsz, hfit', hgl⟩ := hr
       rw [hel] at hsz
-      refine ihLoop _ _ ⟨hlen, hfit', rfl⟩ ?_
-      simp only []
-      unfold GuidsFit at hfit hfit'
-      omega
+      split
+      · exact post_err
+      · refine ihLoop _ _ ⟨hlen, hfit', rfl⟩ ?_
+        simp only []
+        unfold GuidsFit at hfit hfit'
+        omega
   · exact post_pure trivial
 
 theorem nvar_store_step (pol : UInt8) (fuel : Nat)
